@@ -3,7 +3,7 @@ import ast
 
 from sa.loader import AnalysisError, norm, walk_local
 from sa.cfg import cfg_of, handler_names
-from .common import analysis, names_in, ends_in_raise, str_consts_compared
+from .common import analysis, names_in, ends_in_raise, str_consts_compared, eq_texts, true_facts
 
 PROP = "C19"
 TECHNIQUE = "error-mapping discipline of the repository and the retry loop (which handler re-raises which exception); CFG order of the single-injection bookkeeping; sibling agreement of the two schema walkers (_inject_schema vs _parse_schema: reference qualification, namespace tracking, kinds); shared name table in ordered loading"
@@ -85,7 +85,8 @@ def run(ctx):
     ctx.check("C19.R3", "both walkers take a record's namespace from schema_name (dotted names included)", len(rec_ns_i) == 1 and len(rec_ns_p) == 1, inj_f.where(), f"_inject_schema namespace tracking: {[norm(x) for x in rec_ns_i]}", "a record whose namespace is carried by a dotted name would be walked with the wrong namespace: its relative references never match the loaded type")
     ki, kp = str_consts_compared(inj_f.node, "schema_type"), str_consts_compared(ps.node, "schema_type")
     ctx.check("C19.R3", "both walkers know the same schema kinds", ki == kp, inj_f.where(), f"_inject_schema kinds {sorted(ki)} vs _parse_schema {sorted(kp)}", "a kind the parser accepts is not walked by the injector")
-    ok = any(isinstance(n, ast.If) and norm(n.test) == "outer_schema == inner_schema['name']" and any(isinstance(s, ast.Return) and norm(s.value) == "(inner_schema, True)" for s in n.body) for n in walk_local(inj_f.node))
+    icfg = cfg_of(inj_f)
+    ok = any(isinstance(n, ast.Return) and n.value is not None and norm(n.value) == "(inner_schema, True)" and bool(eq_texts("outer_schema", "inner_schema['name']") & true_facts(icfg, icfg.node_of(n))) for n in walk_local(inj_f.node))
     ctx.check("C19.R3", "the reference whose qualified name equals the loaded type's full name is replaced by its definition", ok, inj_f.where(), "_inject_schema: replacement", "the definition is not inlined at the first reference")
 
     ctx.rule("C19.R4", "ordered loading: one shared name table; injection into the last-loaded schema", floor=2)
